@@ -13,7 +13,9 @@ def run(ctx):
     built = T.prepare(ctx, PROPS)
     ng, nc = T.sizes(ctx)
     worlds = T.generate(ctx, ng, nc, force={"enforce": True})
-    results = T.run_worlds(worlds)
+    results = T.run_worlds(worlds, probe=T.probe_spec(ctx, ["c12"]))
+    ctx.rules.append("adversarial probes: the live model is re-optimised to maximise the lateness (start + runtime - deadline) of one "
+                     "placed task; every assignment found goes through the deadline monitor")
     ctx.rules.append(
         "worlds as in C10_tetri with enforce_deadlines on: deadlines past (now-2), exactly tight (now + runtime of one "
         "strategy), loose; 1-2 strategies so that only the faster one may meet the deadline; both back-ends; distinct = "
